@@ -49,12 +49,46 @@ fn run(ctx: &mut Ctx) {
             }
         }
     });
+    boundary_operands(ctx);
+}
+
+/// phase 1: single statements with every numeric operand at, next to and between its field's limits (values that valid
+/// whole programs rarely contain, e.g. `.blkw x8000`): parse, print, reparse
+fn boundary_operands(ctx: &mut Ctx) {
+    // (template, lowest, highest) - `{}` is replaced by the literal
+    const FORMS: [(&str, i64, i64); 16] = [
+        (".blkw {}", 1, 65535), (".orig {}", 0, 65535), (".fill {}", -32768, 65535), ("TRAP {}", 0, 255), ("ADD R1, R2, {}", -16, 15), ("AND R7, R0, {}", -16, 15),
+        ("LDR R1, R2, {}", -32, 31), ("STR R3, R6, {}", -32, 31), ("LD R1, {}", -256, 255), ("ST R4, {}", -256, 255), ("LEA R3, {}", -256, 255), ("LDI R2, {}", -256, 255),
+        ("BRnz {}", -256, 255), ("NOP {}", -256, 255), ("JSR {}", -1024, 1023), ("Lbl JSR {}", -1024, 1023),
+    ];
+    let n = ctx.tier.pick(2_000, 60_000);
+    ctx.cases(1, n, |ctx, rng, idx| {
+        let (tpl, lo, hi) = FORMS[(idx % FORMS.len() as u64) as usize];
+        let v = match rng.below(8) { 0 => lo, 1 => hi, 2 => lo + 1, 3 => hi - 1, 4 => (hi + 1) / 2, 5 => (hi + 1) / 2 - 1, 6 => 0.max(lo), _ => rng.range(lo, hi) };
+        let lit = if v < 0 { match rng.below(3) { 0 => format!("#{v}"), 1 => format!("{v}"), _ => format!("x-{:X}", -v) } } else { match rng.below(3) { 0 => format!("#{v}"), 1 => format!("{v}"), _ => format!("x{v:X}") } };
+        let src = tpl.replace("{}", &lit);
+        ctx.eval();
+        let case = || Json::obj().set("source", src.as_str());
+        let Some(Ok(ast)) = ctx.no_panic("parse_ast", case, || parse_ast(&src)) else { ctx.count("boundary.first-parse-failed"); return };
+        if ast.len() != 1 { return; }
+        let Some(text) = ctx.no_panic("Display", case, || ast[0].to_string()) else { return };
+        ctx.nontrivial_str(&text);
+        let case = || Json::obj().set("source", src.as_str()).set("printed", text.as_str());
+        let Some(back) = ctx.no_panic("parse_ast", case, || parse_ast(&text)) else { return };
+        let name = from_crate(&ast[0]).k.name();
+        match back {
+            Err(e) => ctx.violation(&format!("printed-text-does-not-parse:{name}"), format!("{src:?} prints as {text:?}, which does not parse: {e:?}"), case()),
+            Ok(b) if b.len() != 1 || from_crate(&b[0]) != from_crate(&ast[0]) => ctx.violation(&format!("reparse-differs:{name}"), format!("{src:?} prints as {text:?}, which reparses as {:?}", b.iter().map(from_crate).collect::<Vec<_>>()), case()),
+            Ok(_) => { ctx.count("boundary.roundtrip"); if v == lo || v == hi { ctx.count("boundary.roundtrip.at-limit"); } }
+        }
+    });
 }
 
 fn guard(m: &Merged, _t: Tier) -> Vec<String> {
     let mut out = vec![];
     for n in ["ADDr", "ADDi", "ANDr", "ANDi", "BR", "JMP", "JSR", "JSRR", "LD", "LDI", "LDR", "LEA", "NOT", "RET", "RTI", "ST", "STI", "STR", "TRAP", "NOP",
               "GETC", "OUT", "PUTC", "PUTS", "IN", "PUTSP", "HALT", ".orig", ".fill", ".blkw", ".stringz", ".end", ".external"] { need(m, &mut out, &format!("roundtrip.{n}"), 20); }
+    need(m, &mut out, "boundary.roundtrip", 1000); need(m, &mut out, "boundary.roundtrip.at-limit", 200);
     for k in ["string.quote", "string.backslash", "string.control", "labels.1", "labels.2"] { need(m, &mut out, k, 20); }
     out
 }
